@@ -229,6 +229,51 @@ def refEq : Except RefErr W → Except RefErr W → Bool
   | .error a, .error b => a == b
   | _, _ => false
 
+/-! ### comparison modulo opaque floats
+
+  The kernel returns the opaque float `PV.float "?"` where it decides that the result of an
+  operation IS a float but cannot reproduce CPython's value bit for bit (`float // x`,
+  `float % x`, `x ** y` through libm `pow`).  The first argument of these functions is the
+  kernel's side: an opaque float matches every float, everything else must be equal. -/
+
+partial def pvMatch : PV → PV → Bool
+  | .float h, .float h' => h == opaqueHex || h == h'
+  | .list xs, .list ys => all2 xs ys
+  | .tuple xs, .tuple ys => all2 xs ys
+  | .dict es, .dict fs =>
+    es.length == fs.length && (es.zip fs).all (fun p => pvMatch p.1.1 p.2.1 && pvMatch p.1.2 p.2.2)
+  | .obj c as, .obj c' bs =>
+    c == c' && as.length == bs.length && (as.zip bs).all (fun p => p.1.1 == p.2.1 && pvMatch p.1.2 p.2.2)
+  | a, b => a == b
+where
+  all2 (xs ys : List PV) : Bool := xs.length == ys.length && (xs.zip ys).all (fun p => pvMatch p.1 p.2)
+
+partial def pvHasOpaque : PV → Bool
+  | .float h => h == opaqueHex
+  | .list xs | .tuple xs => xs.any pvHasOpaque
+  | .dict es => es.any (fun e => pvHasOpaque e.1 || pvHasOpaque e.2)
+  | .obj _ as => as.any (fun e => pvHasOpaque e.2)
+  | _ => false
+
+def wMatch (a b : W) : Bool :=
+  (match a.1, b.1 with
+   | some x, some y => pvMatch x y
+   | none, none => true
+   | _, _ => false) && a.2 == b.2
+
+def wHasOpaque (a : W) : Bool := match a.1 with
+  | some x => pvHasOpaque x
+  | none => false
+
+def refMatch : Except RefErr W → Except RefErr W → Bool
+  | .ok a, .ok b => wMatch a b
+  | .error a, .error b => a == b
+  | _, _ => false
+
+def obsMatch : Obs W → Obs W → Bool
+  | .ok a, .ok b => wMatch a b
+  | a, b => a == b
+
 def lastDunder : E PV → String
   | .texpr steps => match steps.getLast? with
     | some (d, _) => d
@@ -296,24 +341,28 @@ def run (j : Json) : Except String Json := do
       ("why", if holds then "" else "implementation differs from the chain applied directly in Python")]
   if leanAfter.1.isNone || modelAfter.1.isNone || isCyclic leanRef then
     return Json.mkObj [("skip", true), ("why", "the result or the target is not a tree any more (cyclic)")]
-  let primOk := refEq leanRef direct && leanAfter == directAfter
-  let ref := if primOk then leanRef else direct
-  let refAfter := if primOk then leanAfter else directAfter
+  -- the kernel's outcome against CPython's, modulo opaque floats (equality when there is none)
+  let primOk := refMatch leanRef direct && wMatch leanAfter directAfter
+  let hasOpq := wHasOpaque leanAfter || (match leanRef with | .ok w => wHasOpaque w | _ => false)
+  -- the reference the property is evaluated against: the kernel's, unless it holds an opaque
+  -- float (then CPython's own outcome, which it matches, says more) or differs from CPython's
+  let ref := if primOk && !hasOpq then leanRef else direct
+  let refAfter := if primOk && !hasOpq then leanAfter else directAfter
   let holds := checkObs ref implObs && refAfter == implAfter
   let modelHolds := checkC02 view hPrim e target s0 modelPair
-  let agree := primOk && modelHolds && modelObs == implObs && modelAfter == implAfter
+  let agree := primOk && modelHolds && obsMatch modelObs implObs && wMatch modelAfter implAfter
   let why :=
     (if checkObs ref implObs then "" else "property fails on the implementation's observation; ") ++
     (if refAfter == implAfter then "" else "the target is left in another state than by the chain applied directly; ") ++
     (if primOk then "" else "Lean primitives differ from Python's direct evaluation; ") ++
     (if modelHolds then "" else "model fails its own checker; ") ++
-    (if modelObs == implObs then "" else "model differs from implementation; ") ++
-    (if modelAfter == implAfter then "" else "model leaves the target in another state than the implementation; ")
+    (if obsMatch modelObs implObs then "" else "model differs from implementation; ") ++
+    (if wMatch modelAfter implAfter then "" else "model leaves the target in another state than the implementation; ")
   let aliased := match leanRef with
     | .ok (_, some _) => "alias:"
     | _ => ""
   let branch := match leanRef with
-    | .ok _ => s!"{stateful}{aliased}ok:{lastDunder ePV}"
+    | .ok _ => s!"{stateful}{aliased}{if hasOpq then "opaque:" else ""}ok:{lastDunder ePV}"
     | .error (.opFail _ kind x) => s!"{stateful}fail:{kindName kind}:{x.cls}"
     | .error (.raised x) => s!"{stateful}argfail:{x.cls}"
     | .error .unsupported => "unsupported"
